@@ -173,6 +173,7 @@ pub fn run_main(sb: &Sandbox, spec: &ProcSpec, dumps: bool) -> (RunSummary, Opti
         stderr: r.stderr,
         syscalls: r.syscalls,
         getrandom_calls: r.getrandom_calls,
+        reads: r.reads,
     };
     (sum, compiled, shell)
 }
